@@ -246,13 +246,22 @@ def run_c12(ck, tier):
                 try:
                     base = tlc.subdir("c12files")
                     pin, pout = os.path.join(base, "in_%d.cfg" % ci), os.path.join(base, "out_%d.cfg" % ci)
+                    # every other file starts with a byte order mark: it is part of the first line's first token and must come out again
+                    bom = ci % 12 == 0
+                    ftext, fexp = text, out
+                    if bom:
+                        ftext = "\ufeff" + text
+                        fexp = run_io(make_fa(feats, "TESTSALT"), ftext)[0]
                     with open(pin, "w", encoding="utf-8", newline="") as fh:
-                        fh.write(text)
+                        fh.write(ftext)
                     AF.anonymize_files(pin, pout, "pwd" in feats, "ip" in feats, salt="TESTSALT", sensitive_words=list(WORDS) if "word" in feats else None, reserved_words=list(RESERVED),
                                        as_numbers=list(asns_for("TESTSALT")) if "as" in feats else None)
                     fo = open(pout, encoding="utf-8", newline="").read() if os.path.isfile(pout) else "<no output file>"
-                    ev.append({"ev": "same", "what": "fileentry", "a": out, "b": fo})
-                    info.append(("fileentry", "stream %r vs file entry point %r" % (out, fo)))
+                    ev.append({"ev": "same", "what": "fileentry", "a": fexp, "b": fo})
+                    info.append(("fileentry", "stream %r vs file entry point %r%s" % (fexp, fo, " (input starts with U+FEFF)" if bom else "")))
+                    if bom and not fexp.startswith("\ufeff"):
+                        ev.append({"ev": "same", "what": "fileentry", "a": "\ufeff", "b": fexp[:1]})
+                        info.append(("fileentry", "byte order mark at the start of the first line lost by the stream API: %r" % fexp[:40]))
                 except Exception as e:
                     ev.append({"ev": "exc", "what": "anonymize_files: %r" % (e,)})
                     info.append(("fileentry", "EXC"))
